@@ -101,12 +101,41 @@ def loader_decisions(F):
     return out
 
 
+def manifest_keys(F):
+    """The MANIFEST is JSON without a checksum, and two of its fields are optional: a damaged KEY must therefore fail the parse
+    (serde's generated field visitor calls `Error::unknown_field`, i.e. `deny_unknown_fields`) — or the file must carry a checksum
+    that Manifest::load verifies.  Otherwise one flipped bit in the key `latest_snapshot` silently removes the snapshot from
+    strict recovery."""
+    vis = None
+    for name, fn in F.items():
+        if "visit_str" not in name or not name.startswith("persistence::"):
+            continue
+        txt = " ".join(" ".join(b.stmts) + " " + (b.term or "") for b in fn.blocks.values() if not b.cleanup)
+        if 'const "latest_snapshot"' in txt and 'const "wal_segments"' in txt:
+            vis = (name, fn, txt)
+    if vis is None:
+        return [Result("inconclusive", "serde field visitor of persistence::Manifest not found in the MIR")]
+    name, fn, txt = vis
+    denies = "unknown_field" in txt
+    ml = FnCheck(F, "persistence::Manifest::load")
+    checksummed = ml.fn is not None and ml.count(call(r"= crc32fast::hash\(", name="crc32fast::hash")) > 0
+    fcv = FnCheck(F, name)
+    r = fcv.reachable(stmt(r"^_0 = ", name="field identified"))
+    smp = {"fn": name, "kind": "NEVER", "B": "unknown MANIFEST key accepted", "unknown_field_call": denies, "manifest_checksummed": checksummed}
+    if denies or checksummed:
+        return [Result("holds", "a damaged MANIFEST key fails the parse (%s)" % ("unknown keys are rejected" if denies else "checksum verified"), queries=r.queries, seconds=r.seconds, sample=smp)]
+    return [Result("violated", "the MANIFEST parser maps every unknown key to 'ignore' and the file has no checksum: a flipped bit in the key \"latest_snapshot\" (or \"latest_snapshot_wal_seq\") turns the optional field "
+                   "into None and strict recovery proceeds without the snapshot", queries=r.queries, seconds=r.seconds, sample=smp)]
+
+
 def _cutoff(F):
     from props.C02 import replay_skip
     return replay_skip(F)
 
 
 MOS += [
+    MO("O13.6/manifest_keys", "Manifest parse: an unknown (damaged) key is an error, or the MANIFEST is checksummed — so that an optional field cannot silently become None", manifest_keys,
+       functions=[("persistence.rs", "Manifest (serde Deserialize)"), ("persistence.rs", "load")], role="manifest-unknown-key-ignored"),
     MO("O13.5/replay_cutoff", "recover: the replay cut-off is the loaded snapshot's own last_wal_seq / timestamp (nothing read from the unchecksummed MANIFEST): every entry newer than the snapshot that was actually loaded "
        "is applied — so a damaged MANIFEST value or a fallback to an older snapshot cannot silently drop acknowledged entries (same DECIDES obligation as C02 O2.1)", _cutoff,
        functions=[("hnsw_backend.rs", "recover_with_hnsw_params_and_mode")]),
@@ -125,4 +154,12 @@ MOS += [
 
 
 def run(tier, seed, notes):
-    return run_mir_obligations("C13", tier, MOS, notes)
+    from vlib import replay as RP
+    obls = run_mir_obligations("C13", tier, MOS, notes)
+    for o in obls:
+        if o.oid == "O13.6/manifest_keys" and o.verdict == "violated":
+            r = RP.run_scenario(["manifest-key-flip"], timeout=300, notes=notes)
+            if r.get("reproduced") is not None:
+                o.replay = r
+                o.detail += " | native replay: " + str(r.get("output"))[:220]
+    return obls
